@@ -86,6 +86,8 @@ def run_unit(unit, ext, tier="quick", seed=0, keep=True):
         r.undecided.append(str(e))
         return r
     r.meta = meta
+    if isinstance(ext, dict) and "_deps" not in ext:
+        ext = ext.get(meta["header"].get("features", ""))  # rlib set built with the unit's cargo features
     main_path = os.path.join(outdir, unit + ".rs")
     probe_path = os.path.join(outdir, unit + "__probe.rs")
     open(main_path, "w").write(text)
